@@ -465,7 +465,6 @@ Section Proofs.
   (* ---------------------------------------------------------------- file.Store *)
   Definition file_ok (s : fstore) : Prop :=
     (forall dg p, assoc_get (f_d2p s) dg = Some p ->
-       name_in p (f_names s) = true /\
        exists bs, assoc_get (f_files s) p = Some bs /\ dg = digest_of H (alg_of dg) bs /\ valid_digest dg = true)
     /\ mem_ok (f_fb s).
 
@@ -474,8 +473,8 @@ Section Proofs.
     intros A B. destruct (str_eqb name p) eqn:E; auto. apply str_eqb_spec in E. subst. congruence.
   Qed.
 
-  Lemma file_push_spec fuel s name d evs e s' :
-    file_ok s -> file_push H comb true fuel s name d evs = (e, s') ->
+  Lemma file_push_spec fuel s name path d evs e s' :
+    file_ok s -> path_free s path -> file_push H comb true fuel s name path d evs = (e, s') ->
     file_ok s' /\
     (e = None ->
        exists bs, file_fetch s' name d = Some bs /\ file_exists s' name d = true /\
@@ -487,7 +486,7 @@ Section Proofs.
     (e <> None -> forall name' d', file_exists s' name' d' = file_exists s name' d' /\
                                    file_fetch s' name' d' = file_fetch s name' d').
   Proof.
-    intros [Ok1 Ok2]. unfold file_push. destruct name as [|c name0].
+    intros [Ok1 Ok2] Pf. unfold file_push. destruct name as [|c name0].
     - (* fallback: LimitedStorage over cas.Memory *)
       destruct (limited_push (mem_push H comb true fuel) defaultFallbackPushSizeLimit (f_fb s) d evs) as [e0 fb'] eqn:El.
       intro E; inversion E; subst; clear E.
@@ -498,7 +497,7 @@ Section Proofs.
         * split; [split; auto|]. split; [|intro X; congruence].
           intros _. unfold file_fetch, file_exists; simpl.
           destruct (assoc_get (f_d2p s) (d_dg d)) as [p|] eqn:Gp.
-          -- destruct (Ok1 _ _ Gp) as (_ & bs & Fb & Db & Vb).
+          -- destruct (Ok1 _ _ Gp) as (bs & Fb & Db & Vb).
              exists bs. rewrite Fb. split; [reflexivity|]. split; [reflexivity|].
              split; [exact Db|]. split; [exact Vb|]. intros [X|X]; congruence.
           -- exists buf. try rewrite mem_get_cons.
@@ -512,12 +511,11 @@ Section Proofs.
         intro E; inversion E; subst e s'; clear E.
       + (* failed: the partial file is removed, nothing is recorded *)
         assert (Fk : forall dg p, assoc_get (f_d2p s) dg = Some p ->
-                       assoc_get (assoc_del (f_files s) name) p = assoc_get (f_files s) p).
-        { intros dg p Gp. destruct (Ok1 _ _ Gp) as (Np & _).
-          rewrite assoc_get_del, (name_in_neq _ _ _ Nin Np). reflexivity. }
+                       assoc_get (assoc_del (f_files s) path) p = assoc_get (f_files s) p).
+        { intros dg p Gp. rewrite assoc_get_del, (Pf _ _ Gp). reflexivity. }
         split; [|split; [discriminate|]].
-        * split; auto. cbn [f_d2p f_files f_names f_fb name_in existsb]. intros dg p Gp. destruct (Ok1 _ _ Gp) as (Np & bs & Fb & Db).
-          split; auto. exists bs. rewrite (Fk _ _ Gp). auto.
+        * split; auto. cbn [f_d2p f_files f_names f_fb name_in existsb]. intros dg p Gp. destruct (Ok1 _ _ Gp) as (bs & Fb & Db).
+          exists bs. rewrite (Fk _ _ Gp). auto.
         * intros _ name' d'. split; [reflexivity|]. unfold file_fetch; cbn [f_d2p f_files f_names f_fb name_in existsb].
           destruct (negb _); auto.
           destruct (assoc_get (f_d2p s) (d_dg d')) as [p|] eqn:Gp; auto. apply (Fk _ _ Gp).
@@ -526,11 +524,9 @@ Section Proofs.
         * split; auto. cbn [f_d2p f_files f_names f_fb name_in existsb]. intros dg p. rewrite assoc_get_set.
           destruct (str_eqb (d_dg d) dg) eqn:Q.
           -- apply str_eqb_spec in Q. subst dg. intro X; inversion X; subst p.
-             rewrite str_eqb_refl. cbn [f_d2p f_files f_names f_fb name_in existsb]. split; auto.
              exists out. rewrite assoc_get_set, str_eqb_refl. destruct A as (A1 & A2 & A3). auto.
-          -- intro Gp. destruct (Ok1 _ _ Gp) as (Np & bs & Fb & Db).
-             split; [apply orb_true_iff; right; exact Np|].
-             exists bs. rewrite assoc_get_set, (name_in_neq _ _ _ Nin Np). auto.
+          -- intro Gp. destruct (Ok1 _ _ Gp) as (bs & Fb & Db).
+             exists bs. rewrite assoc_get_set, (Pf _ _ Gp). auto.
         * intros _. exists out. unfold file_fetch, file_exists; cbn [f_d2p f_files f_names f_fb name_in existsb].
           rewrite !assoc_get_set, !str_eqb_refl.
           destruct name as [|c' n']; [discriminate Hn|]. cbn [orb negb].
@@ -545,7 +541,7 @@ Section Proofs.
   Proof.
     intros [Ok1 Ok2]. unfold file_fetch. destruct (negb _); [discriminate|].
     destruct (assoc_get (f_d2p s) (d_dg d)) as [p|] eqn:Gp.
-    - destruct (Ok1 _ _ Gp) as (_ & bs' & Fb & Db & Vb). intro X. rewrite Fb in X. inversion X; subst. auto.
+    - destruct (Ok1 _ _ Gp) as (bs' & Fb & Db & Vb). intro X. rewrite Fb in X. inversion X; subst. auto.
     - intro G. apply Ok2 in G. destruct G as (A1 & A2 & A3). auto.
   Qed.
 End Proofs.
@@ -572,7 +568,7 @@ Section HistoryProofs.
 
   Lemma file_reach_ok s : file_reach H s -> file_ok H s.
   Proof.
-    induction 1 as [|comb fuel s name d evs e s' R IH E].
+    induction 1 as [|comb fuel s name path d evs e s' R IH Pf E].
     - split; intros d bs; discriminate.
     - eapply file_push_spec in E; eauto. apply E.
   Qed.
@@ -766,9 +762,9 @@ Section Rejects.
     - eapply mem_push_rejects; eauto.
   Qed.
 
-  Lemma file_push_rejects comb fuel s name d evs e s' :
+  Lemma file_push_rejects comb fuel s name path d evs e s' :
     bad_input (mkBase evs (match name with [] => Some (d_sz d) | _ => None end)) (d_dg d) (d_sz d) ->
-    file_push H comb true fuel s name d evs = (e, s') -> e <> None.
+    file_push H comb true fuel s name path d evs = (e, s') -> e <> None.
   Proof.
     unfold file_push. destruct name as [|c n0]; intro B.
     - destruct (limited_push _ _ _ _ _) as [e0 fb'] eqn:El. intro E; inversion E; subst.
@@ -946,7 +942,7 @@ Section FailingReader.
     (forall bufsz out v, copy_buffer H comb true fuel (mkBase evs None) bufsz (d_dg d) (d_sz d) <> ((None, out), v)) /\
     (forall fixed m e m', mem_push H comb fixed fuel m d (mkBase evs None) = (e, m') -> e <> None /\ m' = m) /\
     (forall s e s', oci_push H comb true fuel s d (mkBase evs None) = (e, s') -> e <> None /\ s' = s) /\
-    (forall s name e s', name <> [] -> file_push H comb true fuel s name d evs = (e, s') -> e <> None).
+    (forall s name path e s', name <> [] -> file_push H comb true fuel s name path d evs = (e, s') -> e <> None).
   Proof.
     intro F. apply nfail_in in F. split; [|split; [|split; [|split]]].
     - intros fixed buf v E. apply read_all_failing in E. auto.
@@ -965,7 +961,7 @@ Section FailingReader.
           intro E; inversion E; subst.
         * split; [discriminate|reflexivity].
         * apply copy_buffer_failing in Ec. contradiction.
-    - intros s name e s' Nn. unfold file_push. destruct name as [|c n0]; [congruence|].
+    - intros s name path e s' Nn. unfold file_push. destruct name as [|c n0]; [congruence|].
       destruct (name_in (c :: n0) (f_names s)); [intro E; inversion E; discriminate|].
       destruct (copy_buffer H comb true fuel (mkBase evs None) file_bufsz (d_dg d) (d_sz d)) as [[[e0|] out] v] eqn:Ec;
         intro E; inversion E; subst; [discriminate|].
@@ -1119,7 +1115,7 @@ Section EarlyFailure.
     (forall lim bufsz out v, copy_buffer H comb true fuel (mkBase evs lim) bufsz (d_dg d) (d_sz d) <> ((None, out), v)) /\
     (forall fixed lim m e m', mem_push H comb fixed fuel m d (mkBase evs lim) = (e, m') -> e <> None /\ m' = m) /\
     (forall lim s e s', oci_push H comb true fuel s d (mkBase evs lim) = (e, s') -> e <> None /\ s' = s) /\
-    (forall s name e s', file_push H comb true fuel s name d evs = (e, s') -> e <> None).
+    (forall s name path e s', file_push H comb true fuel s name path d evs = (e, s') -> e <> None).
   Proof.
     intro A.
     assert (RA : forall fixed lim buf v, read_all H comb fixed fuel (mkBase evs lim) (d_dg d) (d_sz d) <> ((None, buf), v)).
@@ -1142,7 +1138,7 @@ Section EarlyFailure.
           intro E; inversion E; subst.
         * split; [discriminate|reflexivity].
         * exfalso. eapply CB; eauto.
-    - intros s name e s'. unfold file_push. destruct name as [|c n0].
+    - intros s name path e s'. unfold file_push. destruct name as [|c n0].
       + destruct (limited_push _ _ _ _ _) as [e0 fb'] eqn:El. intro E; inversion E; subst.
         apply limited_push_spec in El as [(-> & _)|(_ & El)]; [discriminate|].
         apply MP in El. apply El.
